@@ -364,7 +364,7 @@ def compare(prop, lines, vh, seedinfo):
     go_out = par_exec(go_cmd, lines, env=GOENV, limit_mem=True, jobs=prop.get("go_jobs", NCPU))
     midx = [k for k, l in enumerate(lines) if not l.startswith("go.")]
     mlines = [lines[k] for k in midx]
-    m_out = par_exec(model_cmd, mlines, limit_mem=True)   # the model driver runs under the same address-space limit
+    m_out = par_exec(model_cmd, mlines)   # no address-space limit: the thorough tier feeds 32 MB lines (2^24-byte strings) whose parsing needs several GB
     model = dict(zip(midx, m_out))
     fails = []
     stats = dict(go_only=len(lines) - len(midx), compared=len(midx), go_panic=0, go_err=0, go_ok=0)
